@@ -58,23 +58,24 @@ Lemma linv_init next a0 a1 e0 : below next a0 -> below next a1 -> below next e0 
   (forall k, In k (fv e0) -> ~ In k (fv a0 ++ fv a1)) -> linv a0 a1 e0 e0 next.
 Proof. intros. constructor; auto. Qed.
 
-(** the trace of a run that has passed at least once ends with the unifier of the last pass *)
+(** what is claimed of a result; [acq_injective ents] is what the exit test of the current code
+    establishes and what the exit test before 6df0afb did not *)
 Definition res_ok (a0 a1 e0 : axis) (r : lres) : Prop :=
   match r with
   | LDone g ents i' =>
-      li_warn i' = false -> last_sized_b a0 (li_trace i') = true ->
+      li_warn i' = false -> last_sized_b a0 (li_trace i') = true -> acq_injective ents = true ->
       (forall v, rng e0 v -> rng g v) /\ closed_under a0 a1 (rng g)
   | LEarly e' i' =>
       li_warn i' = false -> (forall v, rng e0 v -> rng e' v) /\ (forall v, rng e' v -> rng a1 v -> False)
   | _ => True
   end.
 
-Theorem psolve_loop_inv : forall fuel a0 a1 e0 e i,
-  linv a0 a1 e0 e (li_next i) -> res_ok a0 a1 e0 (psolve_loop fuel a0 a1 e i).
+Theorem psolve_loop_gen_inv (exit : list aentry -> bool) : forall fuel a0 a1 e0 e i,
+  linv a0 a1 e0 e (li_next i) -> res_ok a0 a1 e0 (psolve_loop_gen exit fuel a0 a1 e i).
 Proof.
   induction fuel as [|fuel IH]; intros a0 a1 e0 e i Inv; [exact I|].
-  pose proof (loop_warn_false acq_injective (S fuel) a0 a1 e i) as WF.
-  unfold psolve_loop in *. cbn [psolve_loop_gen] in *.
+  pose proof (loop_warn_false exit (S fuel) a0 a1 e i) as WF.
+  cbn [psolve_loop_gen] in *.
   destruct Inv as [B0 B1 Be Dj Sup].
   change {| us_subst := []; us_next := li_next i; us_warn := false |} with (ust0 (li_next i)) in *.
   destruct (unify (ps_ufuel e a1) e a1 (ust0 (li_next i))) as [[[|] st]|] eqn:U; [| |exact I].
@@ -83,18 +84,18 @@ Proof.
     change {| as_list := []; as_next := us_next st; as_warn := false |} with (astate0 (us_next st)) in *.
     destruct (antiunify (ps_afuel e c) e c (astate0 (us_next st))) as [[g ast]|] eqn:An; [|exact I].
     set (i' := mkLI (S (li_iters i)) (as_next ast) (li_warn i || us_warn st || as_warn ast) (li_trace i ++ [(us_subst st, c)])) in *.
-    destruct (acq_injective (as_list ast)) eqn:Ex.
+    destruct (exit (as_list ast)) eqn:Ex.
     + (* the loop is left *)
-      cbn [res_ok]. intros Wf Sz. cbn [li_warn i'] in Wf.
+      cbn [res_ok]. intros Wf Sz Ex'. cbn [li_warn i'] in Wf.
       apply orb_false_elim in Wf. destruct Wf as [Wf Wa]. apply orb_false_elim in Wf. destruct Wf as [Wi Wu].
       unfold i' in Sz. cbn [li_trace] in Sz. rewrite last_sized_snoc in Sz. unfold pass_sized_b in Sz. cbn [fst] in Sz.
       apply andb_true_iff in Sz. destruct Sz as [Sz1 Sz2].
       destruct (step_covers (li_next i) a0 a1 e B0 B1 Be Dj _ _ _ st c g ast U Cl An Wu Wa) as (C1 & C2 & C3 & _ & _).
       split; [intros v Hv; apply C1; apply Sup; exact Hv|].
       intros v' Hv'. apply (C2 (subst_sized_b_Sized _ Sz1) (sized_b_for _ _ Sz2)).
-      revert Hv'. apply aimg_mono. exact (C3 Ex).
+      revert Hv'. apply aimg_mono. exact (C3 Ex').
     + (* another pass *)
-      pose proof (loop_warn_false acq_injective fuel a0 a1 g i') as WF'.
+      pose proof (loop_warn_false exit fuel a0 a1 g i') as WF'.
       assert (Step : li_warn i' = false -> linv a0 a1 e0 g (li_next i')).
       { intros Wf. cbn [li_warn i'] in Wf.
         apply orb_false_elim in Wf. destruct Wf as [Wf Wa]. apply orb_false_elim in Wf. destruct Wf as [Wi Wu].
@@ -108,36 +109,106 @@ Proof.
           destruct Hin as [Hin|Hin]; [pose proof (B0 k Hin)|pose proof (B1 k Hin)]; lia.
         - intros v Hv. apply C1. apply Sup. exact Hv. }
       specialize (IH a0 a1 e0 g i').
-      destruct (psolve_loop_gen acq_injective fuel a0 a1 g i') as [g' ents' i''|e' i''|e' i''|er]; try exact I.
-      * cbn [res_ok] in *. intros Wf Sz. exact (IH (Step (WF' Wf)) Wf Sz).
+      destruct (psolve_loop_gen exit fuel a0 a1 g i') as [g' ents' i''|e' i''|e' i''|er]; try exact I.
+      * cbn [res_ok] in *. intros Wf Sz Ex'. exact (IH (Step (WF' Wf)) Wf Sz Ex').
       * cbn [res_ok] in *. intros Wf. exact (IH (Step (WF' Wf)) Wf).
   - (* not unifiable *)
     cbn [res_ok]. intros Wf. cbn [li_warn] in Wf. apply orb_false_elim in Wf. destruct Wf as [Wi Wu].
     split; [exact Sup|]. exact (step_disjoint (li_next i) a0 a1 e B1 Be Dj _ st U Wu).
 Qed.
 
-(** C09_psolve_loop_closed *)
-Theorem psolve_loop_closed fuel next a0 a1 e0 g ents i' :
-  below next a0 -> below next a1 -> below next e0 ->
-  (forall k, In k (fv e0) -> ~ In k (fv a0 ++ fv a1)) ->
+(** the loop is only left through its exit test *)
+Lemma loop_done_exit exit : forall fuel a0 a1 e i g ents i',
+  psolve_loop_gen exit fuel a0 a1 e i = LDone g ents i' -> exit ents = true.
+Proof.
+  induction fuel as [|fuel IH]; intros a0 a1 e i g ents i' H; [discriminate|]. cbn [psolve_loop_gen] in H.
+  destruct (unify _ e a1 _) as [[[|] st]|]; try discriminate.
+  destruct (clone _ _ a0) as [c|]; [|discriminate].
+  destruct (antiunify _ e c _) as [[g1 ast]|]; [|discriminate].
+  destruct (exit (as_list ast)) eqn:Ex; [inversion H; subst; exact Ex|exact (IH _ _ _ _ _ _ _ H)].
+Qed.
+
+Section Run.
+Variables (next : positive) (a0 a1 e0 : axis).
+Hypothesis B0 : below next a0.
+Hypothesis B1 : below next a1.
+Hypothesis Be : below next e0.
+Hypothesis Dj : forall k, In k (fv e0) -> ~ In k (fv a0 ++ fv a1).
+
+(** C09_psolve_loop_closed: the loop of the current code *)
+Theorem psolve_loop_closed fuel g ents i' :
   psolve_loop fuel a0 a1 e0 (mkLI 0 next false []) = LDone g ents i' ->
   li_warn i' = false -> last_sized_b a0 (li_trace i') = true ->
   (forall v, rng e0 v -> rng g v) /\ closed_under a0 a1 (rng g).
 Proof.
-  intros B0 B1 Be Dj H W Sz.
-  pose proof (psolve_loop_inv fuel a0 a1 e0 e0 (mkLI 0 next false []) (linv_init next a0 a1 e0 B0 B1 Be Dj)) as R.
-  rewrite H in R. exact (R W Sz).
+  intros H W Sz.
+  pose proof (psolve_loop_gen_inv acq_injective fuel a0 a1 e0 e0 (mkLI 0 next false []) (linv_init next a0 a1 e0 B0 B1 Be Dj)) as R.
+  unfold psolve_loop in H. rewrite H in R. exact (R W Sz (loop_done_exit _ _ _ _ _ _ _ _ _ H)).
 Qed.
 
 (** C09_psolve_loop_early *)
-Theorem psolve_loop_early fuel next a0 a1 e0 e' i' :
-  below next a0 -> below next a1 -> below next e0 ->
-  (forall k, In k (fv e0) -> ~ In k (fv a0 ++ fv a1)) ->
+Theorem psolve_loop_early fuel e' i' :
   psolve_loop fuel a0 a1 e0 (mkLI 0 next false []) = LEarly e' i' ->
   li_warn i' = false ->
   forall v, rng e0 v -> rng a1 v -> False.
 Proof.
-  intros B0 B1 Be Dj H W v Hv Ha.
-  pose proof (psolve_loop_inv fuel a0 a1 e0 e0 (mkLI 0 next false []) (linv_init next a0 a1 e0 B0 B1 Be Dj)) as R.
-  rewrite H in R. destruct (R W) as [S1 S2]. exact (S2 v (S1 v Hv) Ha).
+  intros H W v Hv Ha.
+  pose proof (psolve_loop_gen_inv acq_injective fuel a0 a1 e0 e0 (mkLI 0 next false []) (linv_init next a0 a1 e0 B0 B1 Be Dj)) as R.
+  unfold psolve_loop in H. rewrite H in R. destruct (R W) as [S1 S2]. exact (S2 v (S1 v Hv) Ha).
 Qed.
+
+(** the exit test before 6df0afb, under the guard that the repair turned into the test *)
+Theorem psolve_loop_old_guarded fuel g ents i' :
+  psolve_loop_old fuel a0 a1 e0 (mkLI 0 next false []) = LDone g ents i' ->
+  li_warn i' = false -> last_sized_b a0 (li_trace i') = true -> acq_injective ents = true ->
+  (forall v, rng e0 v -> rng g v) /\ closed_under a0 a1 (rng g).
+Proof.
+  intros H W Sz Ex.
+  pose proof (psolve_loop_gen_inv acq_all_phys fuel a0 a1 e0 e0 (mkLI 0 next false []) (linv_init next a0 a1 e0 B0 B1 Be Dj)) as R.
+  unfold psolve_loop_old in H. rewrite H in R. exact (R W Sz Ex).
+Qed.
+End Run.
+
+(** * finding F25: the exit test before /repo commit 6df0afb.
+    [b] is supported on the cells (x, x, inl) of the index type 2 x 2 x (1+1); [a] maps column
+    (r, inl, inl) to the rows (r', q, r).  The first pass generalises (x, x, inl) with the image
+    (r', q, inl) to (k, k', inl): both recorded first parts are the physical axis x, the old test
+    stops, although (inr, inl, inl) is now in the support and [a] maps it to (r', q, inr). *)
+Definition f25_inl : axis := Sum 0 (Prod []) 1.
+Definition f25_b0 : axis := Prod [Phys 1 2; Phys 1 2; f25_inl].
+Definition f25_a0 : axis := Prod [Phys 2 2; Phys 3 2; Phys 4 2].
+Definition f25_a1 : axis := Prod [Phys 4 2; f25_inl; f25_inl].
+
+Lemma below_b next e : forallb (fun k => Pos.ltb k next) (fv e) = true -> below next e.
+Proof. rewrite forallb_forall. intros H k Hk. apply Pos.ltb_lt. exact (H k Hk). Qed.
+
+Theorem psolve_loop_old_refuted :
+  exists a0 a1 e0 next g ents i',
+    below next a0 /\ below next a1 /\ below next e0 /\
+    (forall k, In k (fv e0) -> ~ In k (fv a0 ++ fv a1)) /\
+    psolve_loop_old (loop_fuel e0) a0 a1 e0 (mkLI 0 next false []) = LDone g ents i' /\
+    li_warn i' = false /\ last_sized_b a0 (li_trace i') = true /\
+    ~ closed_under a0 a1 (rng g).
+Proof.
+  exists f25_a0, f25_a1, f25_b0, 5%positive.
+  eexists. eexists. eexists.
+  split; [apply below_b; reflexivity|]. split; [apply below_b; reflexivity|]. split; [apply below_b; reflexivity|].
+  split. { intros k Hk Hin. simpl in Hk, Hin. destruct Hk as [<-|[<-|[]]]; repeat (destruct Hin as [Hin|Hin]; [discriminate|]); exact Hin. }
+  split; [vm_compute; reflexivity|]. split; [reflexivity|]. split; [vm_compute; reflexivity|].
+  intros C.
+  (* column (inr, inl, inl) = 4 is supported, its image (inl, inl, inr) = 1 is not *)
+  assert (H1 : rng (Prod [Phys 5 2; Phys 6 2; f25_inl]) 1).
+  { apply C. exists (fun k => match k with 4%positive => 1 | _ => 0 end). simpl.
+    split; [repeat split; lia|]. split; [repeat split; lia|]. split; [|reflexivity].
+    exists (fun k => match k with 5%positive => 1 | _ => 0 end). simpl. split; [repeat split; lia|reflexivity]. }
+  destruct H1 as (rho & _ & E). simpl in E. lia.
+Qed.
+
+(** the same input with the exit test of the current code: the loop goes on and returns the full
+    support *)
+Example psolve_loop_f25_now :
+  exists ents i', psolve_loop (loop_fuel f25_b0) f25_a0 f25_a1 f25_b0 (mkLI 0 5 false [])
+                  = LDone (Prod [Phys 10 2; Phys 11 2; Phys 12 2]) ents i' /\ li_iters i' = 3 /\ li_warn i' = false
+                    /\ last_sized_b f25_a0 (li_trace i') = true.
+Proof. eexists. eexists. split; [vm_compute; reflexivity|]. repeat split. Qed.
+
